@@ -115,6 +115,17 @@ func replayCounterexample(prop string, r *Result, rp map[string]interface{}, ver
 		rp["replay"] = "confirmed on the real code (process panic)"
 		return true
 	}
+	if strings.Contains(text, "fatal error: ") && strings.Contains(text, "FAIL") {
+		for _, ln := range strings.Split(text, "\n") {
+			if strings.HasPrefix(strings.TrimSpace(ln), "fatal error: ") {
+				rp["failing_input"] = "the public-API oracle run on the real code crashed the process: " + strings.TrimSpace(ln)
+				break
+			}
+		}
+		fmt.Println("  replayed on the real code:", rp["failing_input"])
+		rp["replay"] = "confirmed on the real code (the oracle, which passes on the unchanged tree, crashed)"
+		return true
+	}
 	if strings.Contains(text, "panic: ") && strings.Contains(text, "FAIL") {
 		// the oracle passes on the unchanged tree (tools/oracle_selfcheck.sh); here the code under test panicked
 		for _, ln := range strings.Split(text, "\n") {
@@ -166,11 +177,16 @@ func runBounded(b BoundedCheck, tier string, verifDir string) (ok bool, summary 
 	ov, _ := json.Marshal(map[string]interface{}{"Replace": map[string]string{target: testFile}})
 	ovFile := filepath.Join(tmp, "overlay.json")
 	os.WriteFile(ovFile, ov, 0o644)
-	ctx, cancel := context.WithTimeout(context.Background(), 20*time.Minute)
+	// a changed implementation can deadlock the stand-in (e.g. a panic while holding a mutex): bounded time
+	limit := "150s"
+	if tier == "thorough" {
+		limit = "20m"
+	}
+	ctx, cancel := context.WithTimeout(context.Background(), 25*time.Minute)
 	defer cancel()
-	cmd := exec.CommandContext(ctx, "go", "test", "-overlay", ovFile, "-vet=off", "-count=1", "-timeout", "15m", "-v", "-run", "^TestVerifBounded$", "./"+b.Pkg)
+	cmd := exec.CommandContext(ctx, "go", "test", "-overlay", ovFile, "-vet=off", "-count=1", "-timeout", limit, "-v", "-run", "^TestVerifBounded$", "./"+b.Pkg)
 	cmd.Dir = optRepo
-	cmd.Env = append(os.Environ(), "GOFLAGS=-mod=mod", "GOPROXY=off", "GOSUMDB=off", "GOTOOLCHAIN=local", fmt.Sprintf("VERIF_BOUND=%d", bound))
+	cmd.Env = append(os.Environ(), "GOFLAGS=-mod=mod", "GOPROXY=off", "GOSUMDB=off", "GOTOOLCHAIN=local", fmt.Sprintf("VERIF_BOUND=%d", bound), "VERIF_BOUNDED_PROP="+b.Prop)
 	out, _ := cmd.CombinedOutput()
 	for _, ln := range strings.Split(string(out), "\n") {
 		if strings.HasPrefix(ln, "BOUNDED-OK") {
@@ -179,6 +195,15 @@ func runBounded(b BoundedCheck, tier string, verifDir string) (ok bool, summary 
 		if strings.HasPrefix(ln, "BOUNDED-FAIL") {
 			return false, strings.TrimPrefix(ln, "BOUNDED-FAIL ")
 		}
+	}
+	if strings.Contains(string(out), "panic: test timed out") {
+		return false, b.Desc + ": the stand-in did not finish within " + limit + " (deadlock or livelock in the code under test)"
+	}
+	if i := strings.Index(string(out), "panic: "); i >= 0 {
+		return false, b.Desc + ": the code under test crashed: " + truncate(string(out)[i:], 200)
+	}
+	if i := strings.Index(string(out), "fatal error: "); i >= 0 {
+		return false, b.Desc + ": the code under test crashed: " + truncate(string(out)[i:], 200)
 	}
 	return false, "bounded check did not run: " + truncate(string(out), 600)
 }
